@@ -340,7 +340,10 @@ Definition ostr (o : option string) : string := match o with Some x => x | None 
 
 (* One entry per processor (= per channel name).  Index i of rowColCodes / subframeOffsets / chanNumbers
    must exist: Go panics with index out of range otherwise. *)
-Definition files_of (t : tables) (source pattern : string) (with_off : bool) : res (list chanfile) :=
+(* [offs]: indices of the channels that have projectors loaded (only those get an OFF writer) *)
+Definition has_off (offs : list Z) (i : Z) : bool := zmem i offs.
+
+Definition files_of (t : tables) (source pattern : string) (offs : list Z) : res (list chanfile) :=
   let n := zlen (t_names t) in
   if (zlen (t_rc t) <? n) || (zlen (t_sub t) <? n) || (zlen (t_nums t) <? n) then Panic
   else Ok (map (fun i =>
@@ -350,8 +353,8 @@ Definition files_of (t : tables) (source pattern : string) (with_off : bool) : r
                         n (t_subdiv t) (znth 0 (t_sub t) i) source in
          mkCF name (znth 0 (t_nums t) i)
               (ostr (filename pattern name "ljh")) (ostr (filename pattern name "ljh3"))
-              (if with_off then ostr (filename pattern name "off") else EmptyString)
-              id (if with_off then Some id else None))
+              (if has_off offs i then ostr (filename pattern name "off") else EmptyString)
+              id (if has_off offs i then Some id else None))
        (zrange 0 n)).
 
 (* ---------------------------------------------------------------- operations and observations *)
@@ -364,7 +367,7 @@ Inductive op :=
 | RPrep (devs : list Z)                    (* Roach: devices with these channel counts *)
 | TPrep (n : Z) | SPrep (n : Z) | EPrep (n : Z)   (* Triangle, SimPulse, Erroring source with n channels *)
 | RcCode (row col rows cols : Z)
-| Files (base today : string) (i : Z) (with_off : bool).   (* PrepareRun + WriteControl START on the last prepared source *)
+| Files (base today : string) (i : Z) (offs : list Z).   (* PrepareRun + WriteControl START on the last prepared source *)
 
 Inductive obs :=
 | ORejCfg                                              (* Configure failed; Start refused *)
@@ -413,16 +416,16 @@ Definition step (s : state) (o : op) : state * obs :=
   | EPrep n => prepared (erroring_prepare n) ""%string
   | RcCode row col rows cols =>
       let c := rc_code row col rows cols in keep (ORc c (rc_row c) (rc_col c) (rc_rows c) (rc_cols c))
-  | Files base today i with_off =>
+  | Files base today i offs =>
       match s_last s with
       | None => keep ONoFiles
       | Some (t, src) =>
           if zlen (t_names t) <=? 0 then keep ONoFiles
           else let pattern := make_directory base today i in
-               match files_of t src pattern with_off with
+               match files_of t src pattern offs with
                | Panic => keep OPanic
                | Ok cf => keep (OFiles pattern cf
-                                 (zlen cf * (if with_off then 3 else 2) + 1))
+                                 (zlen cf * 2 + zlen (filter (has_off offs) (zrange 0 (zlen cf))) + 1))
                end
       end
   end.
